@@ -20,9 +20,17 @@ DOCS = {
     "let-chain": 'let\n  x = 1;\n  b = x;\nin\n{\n  a = b;\n  k = 0;\n}\n',
     "two-lets": 'let\n  x = 1;\nin\nlet\n  c = x;\nin\n{\n  a = c;\n  k = 0;\n}\n',
     "with-env": 'with {\n  x = 1;\n};\nrec {\n  a = x;\n  k = 0;\n}\n',
+    # no enclosing scope at all: nothing re-attaches a context, so whatever an expression carries with it is what gets used
+    "rec-plain": 'rec {\n  a = x;\n  x = 1;\n}\n',
+    "plain": '{\n  a = 0;\n  k = 2;\n}\n',
+    "rec-plain-inline": 'rec { a = x; x = 1; }\n',
 }
 OPS = [("set", "a", "7"), ("set", "a", "8"), ("rm", "x"), ("set", "x", "5"), ("rm", "c"), ("set", "c", "9"), ("rm", "k"), ("set", "b", "3"),
-       ("read", "a"), ("mapset", "x", 5), ("mapdel", "x"), ("mapdel", "c"), ("mapset", "c", 1), ("set", "@x", "4"), ("rm", "@x")]
+       ("read", "a"), ("mapset", "x", 5), ("mapdel", "x"), ("mapdel", "c"), ("mapset", "c", 1), ("set", "@x", "4"), ("rm", "@x"),
+       # an identifier that was resolved in ANOTHER document is assigned over an existing key / to a new key
+       ("mapset_foreign", "a"), ("mapset_foreign", "n")]
+# longer histories on the scope-less rec set over a small alphabet: re-creating a binding that equals a removed one
+OPS4 = [("set", "a", "7"), ("set", "a", "8"), ("rm", "x"), ("set", "x", "7"), ("set", "x", "1"), ("read", "a")]
 
 
 # C14: the attribute set the document's mapping API works on is reached through a let-bound name; re-binding that
@@ -51,6 +59,15 @@ def _do(src, op):
             ref = src[op[1]]
             v = ref.value if isinstance(ref, Identifier) else ref
             return ("value", v.rebuild().strip())
+        if kind == "mapset_foreign":
+            from nix_manipulator import parse as _parse
+
+            other = _parse('let q = "FOREIGN"; in { r = q; }\n')
+            ident = other["r"]
+            _ = ident.value  # resolved in its own document: it carries that document's scope chain
+            src[op[1]] = ident
+            del other
+            return ("ok", src.rebuild())
         if kind == "get":
             v = src[op[1]]
             return ("value", v.rebuild().strip() if hasattr(v, "rebuild") else repr(v))
@@ -117,6 +134,8 @@ def scripts(tier, docs=None, alphabet=None):
 def run(prop, tier, seed):
     t0 = time.time()
     items = list(scripts(tier, DOCS14, OPS14)) if prop == "C14" else list(scripts(tier))
+    if prop != "C14":
+        items += [(d, list(c)) for d in ("rec-plain", "rec-plain-inline") for c in itertools.product(OPS4, repeat=4)]
     with mp.get_context("fork").Pool(16) as pool:
         res = pool.map(eval_script, items, chunksize=64)
     vio = {}
